@@ -114,6 +114,7 @@ def run(tier):
     chk.count('large_result_send_cases', len(cases2))
     chk.extra['landing_functions'] = {k: sorted(v) for k, v in chk.extra.get('landing_functions', {}).items()}
     idle_cases(chk, tier)
+    ctrl_thread_delays(chk, tier)
     chk.assumptions = ['CPython delivers asynchronous exceptions only at eval-breaker polls; the enumerated events are those polls',
                        'points inside stdlib functions called from pyworkers are represented by the entry of the outermost such function (threading.py is monitored for thread kinds)',
                        'terminate timeout 8 s; the injector gives up waiting after 3 s (request-not-delivered region)']
@@ -157,6 +158,80 @@ def idle_cases(chk, tier):
         if sh != 'wte' or term is None or term['value'] != 'True':
             chk.violation('idle:%s:%s' % ('outcome-' + sh if sh != 'wte' else 'terminate-' + str(term and term['value']), kind_of(cls)),
                           '%s terminated while idle after %d inputs (settle %.2fs): outcome %s, terminate=%s' % (cls, n, settle, sh, term), lp.witness(case, dg))
+    cleanup(wd)
+
+
+def ctrl_thread_delays(chk, tier):
+    """The request is delivered by a control thread inside the child (process and remote kinds).  That thread is
+    delayed at each of its own lines (and those of the helpers it calls) while the parent's terminate() goes on:
+    whatever the order in which acknowledgement, wake-up and the asynchronous exception become visible, the
+    outcome must be WorkerTerminatedError."""
+    import os
+    from vlib import lpi
+    from vlib.common import workdir, pmap, cleanup, run_case
+    wd = workdir('c03ctrl')
+    combos = [('PersistentProcessWorker', '_ctrl_fn', 'idle'), ('ProcessWorker', '_ctrl_fn', 'loop'), ('PersistentRemoteWorker', '_ctrl_fn_local', 'idle'), ('RemoteWorker', '_ctrl_fn_local', 'loop'),
+              ]
+
+    def spec_of(cls, state):
+        if state == 'idle':
+            sp = dict(cls=cls, target='p_work', targs=[0, '$DIR'], inputs=[[1]], read_first=1, close_before_point=False, quiet=False)
+            own = ('value', '1')
+        else:
+            # a target that never finishes on its own
+            sp, own = dict(cls=cls, target='py_loop', targs=['$DIR', None], quiet=False), ('value', 'never')
+        sp = dict(sp, action=dict(kind='terminate', timeout=8, force=False, settle=0.3), expect_point=False, wait_timeout=20)
+        return sp, own
+
+    jobs = []
+    for cls, fn, state in combos:
+        sp, own = spec_of(cls, state)
+        rdir = os.path.join(wd, 'rec_%s_%s' % (cls, state))
+        res = run_case('vlib.wcase:lifecycle', sp, rdir, timeout=90, inject=lpi.cfg(cls, 'record', events='line', arm_func=fn, end=[fn]))
+        import glob
+        import json
+        trace = []
+        for f in glob.glob(os.path.join(rdir, 'trace.*.jsonl')):
+            t = [json.loads(l) for l in open(f) if l.strip()]
+            if len(t) > len(trace):
+                trace = t
+        cleanup(rdir)
+        lines = [e for e in trace if e.get('kind') == 'line' and 'i' in e]
+        chk.count('ctrl_thread_lines_recorded_%s_%s' % (kind_of(cls), state), len(lines))
+        if len(lines) < 3:
+            chk.inconclusive('control-thread trace of %s (%s) too short: %d lines' % (cls, state, len(lines)), {'stderr': res['stderr'][-400:]})
+            continue
+        # the lines executed after the request has arrived are at the end of the trace
+        for e in (lines if tier == 'thorough' or len(lines) <= 16 else lines[-16:]):
+            jobs.append((cls, fn, state, e['i'], lpi.at_of(trace, e['i']), e.get('func'), e.get('line')))
+
+    def one(job):
+        cls, fn, state, k, at, func, line = job
+        sp, own = spec_of(cls, state)
+        inject = lpi.cfg(cls, 'act', events='line', k=k, action='pause', arm_func=fn, end=[fn], pause_s=0.7, at=at)
+        res = run_case('vlib.wcase:lifecycle', sp, os.path.join(wd, 'act_%s_%s_%d' % (cls, state, k)), timeout=120, inject=inject)
+        import glob
+        res['held'] = bool(glob.glob(os.path.join(res['dir'], 'at_point.*')))
+        cleanup(res['dir'])
+        return job, own, res
+
+    for job, own, res in pmap(one, jobs, 12):
+        cls, fn, state, k, at, func, line = job
+        case = dict(cls=cls, scen='ctrl-%s' % state, k=k, own=own, res=res, rec_event=dict(at=at))
+        dg = lp.digest(case)
+        chk.case(('ctrl-delay', cls, state, func, line))
+        chk.count('ctrl_thread_delay_cases')
+        chk.count('ctrl_thread_delay_point_' + ('reached' if res.get('held') else 'not_reached'))
+        where = '%s:%s' % (func, line)
+        if not dg['observations']:
+            chk.violation('ctrl-delay:not-dead:%s:%s' % (kind_of(cls), state), '%s (%s), control thread held at %s: not dead after terminate; terminate=%s' % (cls, state, where, dg['terminate']), lp.witness(case, dg))
+            continue
+        sh = lp.shape(dg['observations'][0], own)
+        term = dg['terminate']
+        chk.count('ctrl_thread_delay_outcome_' + sh.split(':')[0])
+        if sh != 'wte' or term is None or term['value'] != 'True':
+            chk.violation('ctrl-delay:%s:%s:%s:in-%s' % ('outcome-' + sh.split(':')[0] if sh != 'wte' else 'terminate-' + str(term and term['value']), kind_of(cls), state, func),
+                          '%s (%s) with its control thread held for 0.7 s at %s: outcome %s, terminate=%s' % (cls, state, where, sh, term), lp.witness(case, dg))
     cleanup(wd)
 
 
